@@ -451,9 +451,18 @@ def rebase(repository, replace_map, revision_rewriter):
         revision_rewriter: Callable that handles rewriting individual revisions.
             Should accept (old_revid, new_revid, new_parents) parameters.
     """
-    # Figure out the dependencies
+    # Figure out the dependencies: the old graph, plus the entries whose
+    # rewritten revision is one of the new parents (a merge that was dropped
+    # from the plan leaves no old-graph edge between its child and its parent)
     graph = repository.get_graph()
-    todo = list(graph.iter_topo_order(replace_map.keys()))
+    new_to_old = {newrevid: oldrevid for oldrevid, (newrevid, _) in replace_map.items()}
+    dependencies = {}
+    for oldrevid, oldparents in graph.get_parent_map(replace_map.keys()).items():
+        newparents = replace_map[oldrevid][1]
+        dependencies[oldrevid] = tuple(oldparents) + tuple(
+            new_to_old[p] for p in newparents if p in new_to_old
+        )
+    todo = topo_sort(dependencies)
     pb = ui.ui_factory.nested_progress_bar()
     try:
         for i, revid in enumerate(todo):
